@@ -220,4 +220,263 @@ theorem spec2_slice (hi : E .index) (cfg : CheckCfg) (c : SCfg) (cs : List OTy) 
       · exact stepEval nf kf _ evf (fun fv hfv => stepEval nt kt _ evt (fun tv htv => fin a fv tv ha hfv htv))
     · rw [if_neg hbs] at hs; cases hs
 
+/-! ### calls of environment functions -/
+
+def Node.isPair : Node → Bool
+  | .pair _ _ _ => true
+  | _ => false
+
+theorem isPair_setKd (n : Node) (t : OTy) : (setKd n t).isPair = n.isPair := by
+  cases n <;> rfl
+
+theorem visit_isPair (cfg : CheckCfg) (n : Node) (st : CState) : (visit cfg n st).1.isPair = n.isPair := by
+  cases n with
+  | builtin m name args =>
+    rcases args with _ | ⟨a, _ | ⟨b, _ | ⟨c, r⟩⟩⟩ <;> simp only [visit] <;> (repeat' split) <;>
+      (try simp only [isPair_setKd]) <;> rfl
+  | _ => (try simp only [visit]) <;> (repeat' split) <;> (try simp only [isPair_setKd]) <;> rfl
+
+theorem setTypeForIntegers_isPair (k : RKind) (n : Node) : (setTypeForIntegers k n).isPair = n.isPair := by
+  cases n <;> (try rfl) <;> (simp only [setTypeForIntegers]; split <;> rfl)
+
+theorem evalList_cons (c : SCfg) (ctx : Ctx) (n : Node) (rest : List Node) (h : n.isPair = false) :
+    evalList c ctx (n :: rest) = (do
+      let v ← eval c ctx n
+      let vs ← evalList c ctx rest
+      pure (v :: vs)) := by
+  cases n with
+  | pair _ _ _ => simp [Node.isPair] at h
+  | _ => simp only [evalList]
+
+theorem intConst_num (k : Kind) (v : Int) : NumOf (intConst (.num k) v) k := by
+  cases k <;> exact ⟨_, rfl⟩
+
+theorem maxRank_self (k : Kind) : Kind.maxRank k k = k := by
+  unfold Kind.maxRank; split <;> rfl
+
+theorem evalOK_sign {P : Ctx → Prop} (c : SCfg) (m : Meta) (op : String) (x : Node) (k : Kind)
+    (hop : op = "+" ∨ op = "-") (hx : EvalOK E P c x (.num k)) : EvalOK E P c (.unary m op x) (.num k) := by
+  intro ctx hctx s
+  have h1 := hx ctx hctx s
+  rcases hop with rfl | rfl <;> simp (config := {decide := true}) only [eval, bind, if_false, if_true] <;>
+    unfold SM.bind' <;> rcases hea : eval c ctx x s with ⟨ra, s1⟩ <;> rw [hea] at h1 <;>
+    cases ra with
+    | error e => exact h1
+    | ok a =>
+      simp only [] at h1 ⊢
+      first
+        | exact h1
+        | (obtain ⟨w, hw, hwk⟩ := negV_num h1
+           simp only [SM.lift, hw, SM.pure']
+           exact hwk)
+
+/-- a tree of integer literals under `+ - * /` and the signs, re-annotated with the numeric kind `k`
+(`setTypeForIntegers`), evaluates to a number of kind `k` -/
+theorem litTree_sound {P : Ctx → Prop} (hd : E .divzero) (cfg : CheckCfg) (c : SCfg) (k : Kind) :
+    ∀ a : Node, intLiteralTree a = true → ∀ st : CState,
+      EvalOK E P c (setTypeForIntegers (.num k) (visit cfg a st).1) (.num k)
+  | .int m v, _, st => by
+    intro ctx _ s
+    simp only [visit, setKd, Node.withMeta, Node.getMeta, setTypeForIntegers, eval]
+    exact intConst_num k v
+  | .unary m op x, h, st => by
+    simp only [intLiteralTree, Bool.and_eq_true, Bool.or_eq_true, beq_iff_eq] at h
+    have ih := litTree_sound (P := P) hd cfg c k x h.2 st
+    have hop : (op == "+" || op == "-") = true := by simpa using h.1
+    simp only [visit, setKd, Node.withMeta, Node.getMeta, setTypeForIntegers, hop, if_true]
+    exact evalOK_sign c _ op _ k h.1 ih
+  | .binary m op l r, h, st => by
+    simp only [intLiteralTree, Bool.and_eq_true, Bool.or_eq_true, beq_iff_eq] at h
+    have ihl := litTree_sound (P := P) hd cfg c k l h.1.2 st
+    have ihr := litTree_sound (P := P) hd cfg c k r h.2 (visit cfg l st).2.2
+    have hop : (op == "+" || op == "/" || op == "-" || op == "*") = true := by simpa using h.1.1
+    simp only [visit, setKd, Node.withMeta, Node.getMeta, setTypeForIntegers, hop, if_true]
+    have := evalOK_arith (E := E) (P := P) hd c
+      { m with kd := (orFail (binaryRule cfg.dt op (visit cfg l st).2.1 (visit cfg r (visit cfg l st).2.2).2.1) m.loc
+        (visit cfg r (visit cfg l st).2.2).2.2).1.kind } op _ _ k k
+      (by rcases h.1.1 with ((e | e) | e) | e <;> simp [e]) ihl ihr
+    rw [maxRank_self] at this
+    exact this
+  | .nil _, h, _ | .ident _ _ _, h, _ | .float _ _, h, _ | .bool _ _, h, _ | .str _ _, h, _ | .const _ _, h, _
+  | .matches _ _ _ _, h, _ | .prop _ _ _ _, h, _ | .index _ _ _, h, _ | .slice _ _ _ _, h, _
+  | .method _ _ _ _ _, h, _ | .func _ _ _ _, h, _ | .builtin _ _ _, h, _ | .closure _ _, h, _
+  | .pointer _, h, _ | .cond _ _ _ _, h, _ | .array _ _, h, _ | .map _ _, h, _ | .pair _ _ _, h, _ => by
+    simp [intLiteralTree] at h
+
+/-- the values `vs` fit the parameters from position `i` on -/
+def ArgsConform (ins : List Ty) (variadic : Bool) (numIn offset : Nat) : Nat → List Val → Prop
+  | _, [] => True
+  | i, v :: rest =>
+    (∃ Vp, vtyOf (paramFor ins variadic numIn offset i) = some Vp ∧ ValOfV v Vp) ∧
+      ArgsConform ins variadic numIn offset (i + 1) rest
+
+/-- **the hypothesis on the world**: an environment function called with arguments of its parameter
+types returns a value of its declared result type, or fails with a tolerated class (`E`; a panic inside
+the function is `ErrClass.call`) -/
+def WorldConforms (E : ErrClass → Prop) (cfg : CheckCfg) (c : SCfg) : Prop :=
+  ∀ (name : String) (fn : Ty) (isMethod : Bool) (ins : List Ty) (variadic : Bool) (numIn offset : Nat)
+    (out : Ty) (vs : List Val) (V : VTy),
+    funcTargetC cfg name = some (fn, isMethod) →
+    funcPlan fn isMethod vs.length = .inr (ins, variadic, numIn, offset, out) →
+    ArgsConform ins variadic numIn offset 0 vs → vtyOf (some out) = some V →
+    ROK E (fun v => ValOfV v V) (callMember c.world c.env name vs)
+
+/-- an argument the fragment admits for the parameter type `inT`: its type and the parameter's are the
+same value type (scalar kind or slice of scalars) and it is not retyped, or it is a tree of integer
+literals retyped to a numeric scalar parameter -/
+def argOK (cfg : CheckCfg) (a : Node) (t0 : Option OTy) (inT : OTy) : Bool :=
+  match t0 with
+  | some t0 =>
+    (vtyOf t0).isSome && (vtyOf inT).isSome &&
+    (if retypes cfg.dt a inT then intLiteralTree a && inT.kind.isScalar && isNumberT inT
+     else vtyOf t0 == vtyOf inT)
+  | none => false
+
+def ArgsOK (E : ErrClass → Prop) (cfg : CheckCfg) (c : SCfg) (cs : List OTy) (ins : List Ty) (variadic : Bool)
+    (numIn offset : Nat) : Nat → List Node → Prop
+  | _, [] => True
+  | i, a :: rest =>
+    (a.isPair = false ∧ Spec2 E cfg c cs a ∧
+      argOK cfg a (synth cfg cs a) (paramFor ins variadic numIn offset i) = true) ∧
+    ArgsOK E cfg c cs ins variadic numIn offset (i + 1) rest
+
+theorem args_spec2 (hd : E .divzero) (cfg : CheckCfg) (c : SCfg) (cs : List OTy) (ins : List Ty) (variadic : Bool)
+    (numIn offset : Nat) :
+    ∀ (args : List Node) (i : Nat), ArgsOK E cfg c cs ins variadic numIn offset i args →
+      synthArgs cfg cs ins variadic numIn offset i args = true → ∀ st : CState, st.colls = cs →
+      (checkArgs cfg ins variadic numIn offset i args st).2.1 = true ∧
+      (checkArgs cfg ins variadic numIn offset i args st).2.2.colls = cs ∧
+      ∀ ctx, CtxFor cs ctx →
+        SMOK E (fun vs => vs.length = args.length ∧ ArgsConform ins variadic numIn offset i vs)
+          (evalList c ctx (checkArgs cfg ins variadic numIn offset i args st).1)
+  | [], i, _, _, st, hst => by
+    simp only [checkArgs]
+    refine ⟨trivial, hst, ?_⟩
+    intro ctx _
+    simp only [evalList]
+    exact smok_pure ⟨rfl, trivial⟩
+  | a :: rest, i, hok, hs, st, hst => by
+    obtain ⟨⟨hnp, ih, harg⟩, hrest⟩ := hok
+    simp only [synthArgs] at hs
+    cases hsa : synth cfg cs a with
+    | none => rw [hsa] at hs; cases hs
+    | some t0 =>
+      rw [hsa] at hs harg
+      simp only [Bool.and_eq_true] at hs
+      simp only [argOK, Bool.and_eq_true] at harg
+      obtain ⟨⟨hv0, hvp⟩, hcase⟩ := harg
+      obtain ⟨V0, hV0⟩ := Option.isSome_iff_exists.1 hv0
+      obtain ⟨Vp, hVp⟩ := Option.isSome_iff_exists.1 hvp
+      obtain ⟨e1, _, ev⟩ := ih t0 V0 hsa hV0 st hst
+      have hc := visit_colls cfg a st
+      have hpair := visit_isPair cfg a st
+      rcases hv : visit cfg a st with ⟨a', t', st1⟩
+      rw [hv] at e1 ev hc hpair
+      simp only [] at e1 ev hc hpair
+      subst e1
+      obtain ⟨okr, hcr, evr⟩ := args_spec2 hd cfg c cs ins variadic numIn offset rest (i + 1) hrest hs.2 st1 (hc.trans hst)
+      rcases hr : checkArgs cfg ins variadic numIn offset (i + 1) rest st1 with ⟨rest', ok, st2⟩
+      rw [hr] at okr hcr evr
+      simp only [] at okr hcr evr
+      subst okr
+      simp only [checkArgs, hv, hs.1, Bool.not_true, Bool.false_eq_true, if_false, hr]
+      refine ⟨trivial, hcr, ?_⟩
+      intro ctx hctx
+      -- the argument as it is evaluated
+      have harg : EvalOKV E (CtxFor cs) c
+          (if retypes cfg.dt a (paramFor ins variadic numIn offset i) = true
+            then setTypeForIntegers (OTy.kind (paramFor ins variadic numIn offset i)) a' else a') Vp := by
+        by_cases hrt : retypes cfg.dt a (paramFor ins variadic numIn offset i) = true
+        · rw [if_pos hrt] at hcase ⊢
+          simp only [Bool.and_eq_true] at hcase
+          obtain ⟨⟨hlit, hsc⟩, hnum⟩ := hcase
+          obtain ⟨k, hk⟩ := (isNumberT_scalar (t := paramFor ins variadic numIn offset i) hsc).1 hnum
+          rw [vtyOf_scalar (t := paramFor ins variadic numIn offset i) hsc, hk] at hVp
+          cases hVp
+          have := litTree_sound (E := E) (P := CtxFor cs) hd cfg c k a hlit st
+          rw [hv] at this
+          rw [hk]
+          exact this
+        · rw [if_neg hrt] at hcase ⊢
+          have : vtyOf t' = vtyOf (paramFor ins variadic numIn offset i) := by simpa using hcase
+          rw [this, hVp] at hV0
+          cases hV0
+          exact ev
+      have hnp' : (if retypes cfg.dt a (paramFor ins variadic numIn offset i) = true
+            then setTypeForIntegers (OTy.kind (paramFor ins variadic numIn offset i)) a' else a').isPair = false := by
+        split
+        · rw [setTypeForIntegers_isPair, hpair]; exact hnp
+        · rw [hpair]; exact hnp
+      rw [evalList_cons c ctx _ rest' hnp']
+      refine smok_bind (evalOKV_smok harg ctx hctx) ?_
+      intro v hv'
+      refine smok_bind (evr ctx hctx) ?_
+      intro vs ⟨hlen, hconf⟩
+      refine smok_pure ⟨?_, ⟨Vp, hVp, hv'⟩, hconf⟩
+      simp only [List.length_cons, hlen]
+
+theorem smok_logCall (name : String) (vs : List Val) : SMOK E (fun _ => True) (SM.logCall name vs) :=
+  fun _ => trivial
+
+theorem funcPlan_inl {fn : Ty} {im : Bool} {n : Nat} {rule : Rule} (h : funcPlan fn im n = .inl rule) :
+    rule = .ok ifaceTy ∨ ∃ e, rule = .error e := by
+  unfold funcPlan at h
+  (repeat' (split at h)) <;> (try simp only [] at h) <;> (repeat' (split at h)) <;> (try cases h) <;>
+    first | exact Or.inl rfl | exact Or.inr ⟨_, rfl⟩
+
+/-- `f(a₁, …, aₙ)` for an environment function `f` -/
+theorem spec2_func (hd : E .divzero) (cfg : CheckCfg) (c : SCfg) (hw : WorldConforms E cfg c) (cs : List OTy) (m : Meta)
+    (name : String) (args : List Node) (fast : Bool)
+    (htarget : (funcTargetC cfg name).isSome = true)
+    (hargs : ∀ fn isMethod ins variadic numIn offset out, funcTargetC cfg name = some (fn, isMethod) →
+      funcPlan fn isMethod args.length = .inr (ins, variadic, numIn, offset, out) →
+      ArgsOK E cfg c cs ins variadic numIn offset 0 args) :
+    Spec2 E cfg c cs (.func m name args fast) := by
+  intro τ V hs hV st hst
+  simp only [synth] at hs
+  cases hft : funcTargetC cfg name with
+  | none => rw [hft] at htarget; cases htarget
+  | some p =>
+    obtain ⟨fn, isMethod⟩ := p
+    rw [hft] at hs
+    simp only [] at hs
+    cases hfp : funcPlan fn isMethod args.length with
+    | inl rule =>
+      exfalso
+      rw [hfp] at hs
+      simp only [] at hs
+      have hrule := toOption'_some hs
+      have hif : vtyOf ifaceTy = none := by decide
+      rcases funcPlan_inl hfp with rfl | ⟨e, rfl⟩
+      · cases hrule; rw [hif] at hV; cases hV
+      · cases hrule
+    | inr q =>
+      obtain ⟨ins, variadic, numIn, offset, out⟩ := q
+      rw [hfp] at hs
+      simp only [] at hs
+      by_cases hsa : synthArgs cfg cs ins variadic numIn offset 0 args = true
+      · rw [if_pos hsa] at hs
+        cases hs
+        obtain ⟨okr, hcr, evr⟩ := args_spec2 hd cfg c cs ins variadic numIn offset args 0
+          (hargs fn isMethod ins variadic numIn offset out hft hfp) hsa st hst
+        rcases hr : checkArgs cfg ins variadic numIn offset 0 args st with ⟨args', ok, st2⟩
+        rw [hr] at okr hcr evr
+        simp only [] at okr hcr evr
+        subst okr
+        simp only [visit, hft, hfp, hr, if_true]
+        refine ⟨trivial, setKd_kd _ _, ?_⟩
+        apply smok_evalOKV
+        intro ctx hctx
+        show SMOK E (fun v => ValOfV v V)
+          (eval c ctx (.func { m with kd := OTy.kind (some out) } name args' (fastCall fn isMethod)))
+        simp only [eval]
+        refine smok_bind (evr ctx hctx) ?_
+        intro vs ⟨hlen, hconf⟩
+        have hcall : ROK E (fun v => ValOfV v V) (callMember c.world c.env name vs) :=
+          hw name fn isMethod ins variadic numIn offset out vs V hft (by rw [hlen]; exact hfp) hconf hV
+        split
+        · exact smok_bind (smok_logCall name vs) (fun _ _ => smok_lift hcall)
+        · exact smok_lift hcall
+      · rw [if_neg hsa] at hs; cases hs
+
 end ExprModel
